@@ -214,3 +214,8 @@ func init() {
 	addMutant(mutant{Name: "wal/await-rotation-forgets-to-relock", Fire: []string{"ACC-08"},
 		Edits: []edit{{"wal.go", "		w.writeMu.Unlock()\n		<-awaitCh\n		w.writeMu.Lock()", "		w.writeMu.Unlock()\n		<-awaitCh"}}})
 }
+
+func init() {
+	addMutant(mutant{Name: "fs/create-drops-max-size-check", Fire: []string{"ORD-08"},
+		Edits: []edit{{"fs/fs.go", "		if size > math.MaxInt32 {\n			return nil, fmt.Errorf(\"maximum file size is %d bytes\", math.MaxInt32)\n		}\n", "		_ = fmt.Sprint(math.MaxInt32)\n"}}})
+}
